@@ -203,7 +203,13 @@ def run(repo, chk, tier):
     init_ok = len(rebinds) == 1 and rebinds[0].lineno < loop.lineno and isinstance(rebinds[0].value, ast.List) and not rebinds[0].value.elts
     others = [n for n in own_nodes(fn.node) if (isinstance(n, ast.AugAssign) and isinstance(n.target, ast.Name) and n.target.id == acc and not ast.unparse(n.value).endswith('.triplet_scores'))
               or (isinstance(n, ast.Call) and isinstance(n.func, ast.Attribute) and isinstance(n.func.value, ast.Name) and n.func.value.id == acc and n.func.attr in ('clear', 'pop', 'remove', 'sort', 'insert', 'append'))]
-    chk.expect(init_ok and not others, 'C08.6a', 'R13', fn.site(rebinds[-1]) if rebinds else fn.site(), f'{acc}: initialised once to [], only extended by a batch\'s triplets',
+    init_v = rebinds[0].value if len(rebinds) == 1 else None
+    init_cls = (m.dotted(init_v.func) or '') if isinstance(init_v, ast.Call) else ''
+    if init_v is not None and not others and rebinds[0].lineno < loop.lineno and init_cls.startswith('outrank.') and repo.find_class(init_cls) is not None:
+        chk.unsure('C08.6a', 'R13', fn.site(rebinds[0]), ast.unparse(rebinds[0])[:100], f'the per-batch triplets are accumulated in an object of the class {init_cls.split(".")[-1]}, which this rule does not model: '
+                   'that it holds the raw per-batch scores of all batches is not decided')
+    else:
+      chk.expect(init_ok and not others, 'C08.6a', 'R13', fn.site(rebinds[-1]) if rebinds else fn.site(), f'{acc}: initialised once to [], only extended by a batch\'s triplets',
                'the accumulator holds the raw per-batch scores of all batches', 'the accumulator of per-batch triplets is re-bound or edited (e.g. replaced by its aggregation): the final score is no longer the median of the per-batch scores')
 
     # -- 5 tail
@@ -327,7 +333,7 @@ def aggregator(repo, chk, fn, acc):
     rets = [r for r in returns(g) if not (isinstance(r.value, ast.Constant) and r.value.value is None)]
     E = lambda s: expected_term(m, s)
     forms = []
-    for frame in (f"pandas.DataFrame({gp}, columns=['FeatureA', 'FeatureB', 'Score'])",):
+    for frame in (f"pandas.DataFrame({gp}, columns=['FeatureA', 'FeatureB', 'Score'])", f"pandas.DataFrame(list({gp}), columns=['FeatureA', 'FeatureB', 'Score'])"):
         for ai in (", as_index=False", ""):
             forms.append(E(f"{frame}.groupby(['FeatureA', 'FeatureB']{ai}).median()"))
             forms.append(E(f"{frame}.groupby(['FeatureA', 'FeatureB']{ai})['Score'].median()"))
@@ -361,9 +367,41 @@ def aggregator(repo, chk, fn, acc):
             chk.bad('C08.6f', 'R14', g.site(), 'get_grouped_df', 'no path of get_grouped_df returns the aggregated frame')
         if not any(o.oid == 'C08.6f' for o in chk.obs):
             chk.ok('C08.6f', 'R14', g.site(), f'{len(gps)} path(s)', 'the aggregation is skipped only for an empty list of triplets')
-    ok = len(rets) == 1 and term_of(g, rets[0].value, inline=True) in forms
-    chk.expect(ok, 'C08.6d', 'R15', g.site(rets[0]) if rets else g.site(), ast.unparse(rets[0]) if rets else 'return grouped', 'final score of an ordered pair = median of its per-batch scores',
-               f"aggregation must be DataFrame(triplets, columns=[FeatureA, FeatureB, Score]).groupby([FeatureA, FeatureB]).median(); found {show(term_of(g, rets[0].value, inline=True))[:200] if rets else None}")
+    found = [term_of(g, r.value, inline=True) for r in rets]
+    ok = bool(found) and all(t in forms for t in found)
+    # found and wrong: a groupby over the pair columns that is reduced by something other than the median, or grouped by other keys
+    wrong = None
+    for t in found:
+        if t in forms:
+            continue
+        is_call = lambda x: isinstance(x, tuple) and len(x) == 4 and x[0] == 'call' and isinstance(x[1], tuple)
+        fname = lambda x: (x[1][2] if x[1][0] == 'attr' else str(x[1][1]).split('.')[-1] if x[1][0] in ('lib', 'name') else None)
+        gb = [x for x in walk_term(t) if is_call(x) and x[1][0] == 'attr' and x[1][2] == 'groupby']
+        over_gb = [x for x in walk_term(t) if is_call(x) and fname(x) != 'groupby' and any(y in gb for a in (list(x[2]) + ([x[1][1]] if x[1][0] == 'attr' else [])) for y in walk_term(a))]
+        red = [fname(x) for x in over_gb if fname(x) in ('mean', 'sum', 'max', 'min', 'first', 'last', 'count', 'std', 'prod', 'nunique', 'nanmean', 'average', 'amax', 'amin')]
+        agg_other = [a for x in over_gb if fname(x) in ('agg', 'aggregate') for a in x[2] if a != ('str', 'median') and a not in gb and not any(y in gb for y in walk_term(a))]
+        keys_ok = all(x[2] and x[2][0] in (E("['FeatureA', 'FeatureB']"), E("('FeatureA', 'FeatureB')")) for x in gb)
+        dropped = [fname(x) for g_ in gb for x in walk_term(g_[1][1]) if is_call(x) and fname(x) in ('drop_duplicates', 'dropna', 'head', 'tail', 'sample', 'query', 'nlargest', 'nsmallest', 'drop', 'unique')]
+        if gb and (red or agg_other):
+            wrong = f'the per-batch scores of a pair are reduced by {(red or ["another aggregate"])[0]}, not by the median'
+        elif gb and dropped:
+            wrong = f'rows of the per-batch triplets are removed ({dropped[0]}) before they are aggregated: the median is no longer taken over all per-batch scores of the pair'
+        elif gb and not keys_ok:
+            wrong = 'the scores are not grouped by the ordered pair (FeatureA, FeatureB)'
+    if not wrong:
+        # the same when the frame that is grouped was re-bound to a cut of itself before
+        DROPS = ('drop_duplicates', 'dropna', 'head', 'tail', 'sample', 'query', 'nlargest', 'nsmallest', 'drop')
+        grouped_names = {c.func.value.id for c in calls(g, attr='groupby') if isinstance(c.func.value, ast.Name)}
+        for n in own_nodes(g.node):
+            if isinstance(n, ast.Assign) and any(isinstance(t_, ast.Name) and t_.id in grouped_names for t_ in n.targets):
+                cut = [c for c in ast.walk(n.value) if isinstance(c, ast.Call) and isinstance(c.func, ast.Attribute) and c.func.attr in DROPS]
+                if cut:
+                    wrong = f'rows of the per-batch triplets are removed ({cut[0].func.attr}) before they are aggregated: the median is no longer taken over all per-batch scores of the pair'
+    if wrong:
+        chk.bad('C08.6d', 'R15', g.site(rets[0]) if rets else g.site(), ast.unparse(rets[0])[:140] if rets else 'return grouped', wrong)
+    else:
+        chk.expect(ok, 'C08.6d', 'R15', g.site(rets[0]) if rets else g.site(), ast.unparse(rets[0]) if rets else 'return grouped', 'final score of an ordered pair = median of its per-batch scores',
+                   f"aggregation must be DataFrame(triplets, columns=[FeatureA, FeatureB, Score]).groupby([FeatureA, FeatureB]).median(); found {show(found[0])[:200] if found else None}", soft=True)
 
 
 def final_sort(repo, chk):
